@@ -292,6 +292,32 @@ func (cl *cluster) apply(ev string) {
 			}
 			cl.synced[b.seq] = true
 		}
+	case "VerifyF":
+		// verify with one REST call to the joining replica failing (timeout, 5xx, replica killed at that point)
+		i := atoi(f[1])
+		cl.failREST[fmt.Sprintf("%d/%s", i, f[2])] = true
+		cl.nFaults++
+		err := cl.guard(ev, func() error { return c.VerifyRebuildReplica(addr(i)) })
+		cl.observe("%s -> %v", ev, err != nil)
+		cl.terr(ev, err)
+		cl.failREST = map[string]bool{}
+		cl.settle()
+		if err == nil {
+			cl.terr(ev, cl.rest(i, "setrebuilding", `{"rebuilding":false}`))
+		} else if cl.wants("c07") {
+			after := cl.c.VerifView()
+			for _, r := range after.Replicas {
+				if nodeOf(r.Address) == i && r.Mode == types.RW {
+					src := -1
+					if rw, _, _ := modesOf(before); len(rw) > 0 {
+						src = rw[0]
+					}
+					if src >= 0 && cl.nodes[src].View().Rev != cl.nodes[i].View().Rev {
+						cl.violate("promotion", "promoted-by-failed-verify", fmt.Sprintf("%s failed (%v) but node %d is RW afterwards with revision counter %d (source %d)", ev, err, i, cl.nodes[i].View().Rev, cl.nodes[src].View().Rev))
+					}
+				}
+			}
+		}
 	case "Verify", "VerifyEarly":
 		i := atoi(f[1])
 		err := cl.guard(ev, func() error { return c.VerifyRebuildReplica(addr(i)) })
